@@ -63,7 +63,8 @@ constexpr int MAX_KEYS = 128;
 constexpr int MAX_FIBERS = 256;
 constexpr int TSO_CAP = 8;
 
-struct TsoEntry { void* addr; uint32_t n; unsigned char val[16]; };
+static const uint64_t TSO_MAX_AGE = 400;   // schedule points
+struct TsoEntry { void* addr; uint32_t n; unsigned char val[16]; uint64_t born; };
 
 struct EhGlobals { void* caught; unsigned int uncaught; };
 
@@ -324,7 +325,7 @@ bool tso_store(void* addr, const void* val, size_t n, int) {
     Fiber* f = g_cur;
     if (f->tso_n == TSO_CAP) tso_drain_one(f);
     TsoEntry& e = f->tso[f->tso_n++];
-    e.addr = addr; e.n = (uint32_t)n; memcpy(e.val, val, n);
+    e.addr = addr; e.n = (uint32_t)n; memcpy(e.val, val, n); e.born = g_step;
     return true;
 }
 bool tso_load(const void* addr, void* out, size_t n) {
@@ -651,7 +652,11 @@ void point_slow(int kind, const void* addr) {
     if (g_tso_on) {
         for (int i = 0; i < g_nfib; ++i) {
             Fiber* f = g_fibers[i];
-            if (f->tso_n && sched_choice(4, "drain") == 1) tso_drain_one(f);
+            if (!f->tso_n) continue;
+            // a store does not stay buffered for ever: bounded delay, independent of the decision source (a replay
+            // whose log has run out would otherwise never drain and report an artificial livelock)
+            if (g_step - f->tso[0].born > TSO_MAX_AGE) { tso_drain_one(f); continue; }
+            if (sched_choice(4, "drain") == 1) tso_drain_one(f);
         }
     }
     if (kind == K_PAUSE || kind == K_YIELD) cur->spin_points++;
